@@ -30,6 +30,7 @@ def handle (op : String) (args : List String) : Option String :=
         | "jiff_zoned" => showBytes (jiffZonedString specLib f)
         | "jiff_ts" => showBytes (jiffTimestampString specLib f)
         | "time_odt" => showBytes (timeOdtString specLib f)
+        | "time_time" => showBytes (timeTimeString specLib f)
         | _ => "bad-op"
       | none => "bad-op"
     | [] => "bad-op"
